@@ -17,6 +17,7 @@ import (
 	"path/filepath"
 	"reflect"
 	"sort"
+	"runtime/debug"
 	"strings"
 	"syscall"
 	"testing"
@@ -296,7 +297,11 @@ func execOp(s *LevelDBStore, dir string, op c09Op, protoMode *bool) (*LevelDBSto
 func c09Run(c c09Case, dir string) (f *vh.Failure) {
 	defer func() {
 		if r := recover(); r != nil {
-			f = vh.Failf("store-panic", "panic: %v", r)
+			st := string(debug.Stack())
+			if len(st) > 1800 {
+				st = st[:1800]
+			}
+			f = vh.Failf("store-panic", "panic: %v\n%s", r, st)
 		}
 	}()
 	robust.MessageOffset = c.Offset
@@ -484,6 +489,62 @@ func genOps(t *rapid.T, n int, allowReopen bool, startProto bool) []c09Op {
 	return ops
 }
 
+// genLongOps: the log of a real node. raft appends thousands of entries between two snapshots
+// and then truncates with ONE DeleteRange over everything older than its trailing window (a
+// prefix), or over a conflicting suffix; the ranges of genOps never get near that size.
+func genLongOps(t *rapid.T, startProto bool) []c09Op {
+	var ops []c09Op
+	first := genIndex(t, nil)
+	next := first
+	runs := rapid.IntRange(1, 2).Draw(t, "longruns")
+	for r := 0; r < runs; r++ {
+		cnt := rapid.IntRange(700, 2800).Draw(t, "longrun")
+		chunk := rapid.SampledFrom([]int{64, 500, 4000}).Draw(t, "appendbatch")
+		for done := 0; done < cnt; {
+			op := c09Op{Kind: "storelogs"}
+			for j := 0; j < chunk && done < cnt; j++ {
+				op.Entries = append(op.Entries, c09Entry{Index: next, Term: uint64(1 + r), Type: uint8(1 + done%4), Data: []byte{byte(done), byte(done >> 8)}})
+				next++
+				done++
+			}
+			ops = append(ops, op)
+		}
+		ops = append(ops, c09Op{Kind: "set", Key: []byte("CurrentTerm"), Val: []byte{byte(r)}})
+		last := next - 1
+		ndel := rapid.IntRange(1, 2).Draw(t, "longdels")
+		for d := 0; d < ndel; d++ {
+			span := uint64(rapid.IntRange(1, int(last-first)+40).Draw(t, "longspan"))
+			op := c09Op{Kind: "delrange"}
+			switch rapid.IntRange(0, 3).Draw(t, "longdelkind") {
+			case 0, 1: // truncation of a prefix (after a snapshot)
+				op.Min, op.Max = first, first+span-1
+				if rapid.Bool().Draw(t, "fromzero") {
+					op.Min = 0
+				}
+			case 2: // truncation of a suffix (conflicting entries)
+				op.Max = last + uint64(rapid.IntRange(0, 3).Draw(t, "beyond"))
+				if span > last-first {
+					span = last - first
+				}
+				op.Min = last - span + 1
+			default: // somewhere inside
+				op.Min = first + uint64(rapid.IntRange(0, int(last-first)).Draw(t, "inneroff"))
+				op.Max = op.Min + span
+			}
+			ops = append(ops, op)
+		}
+		if rapid.Bool().Draw(t, "longreopen") {
+			kind := "reopen"
+			if !startProto && rapid.Bool().Draw(t, "longconvert") {
+				kind = "reopen_proto"
+				startProto = true
+			}
+			ops = append(ops, c09Op{Kind: kind})
+		}
+	}
+	return ops
+}
+
 func c09Nontrivial(c c09Case) (bool, []string) {
 	var labels []string
 	del, reopenAfterDel, stableBetween, sawLog, conv := false, false, false, false, false
@@ -508,6 +569,12 @@ func c09Nontrivial(c c09Case) (bool, []string) {
 	}
 	if conv {
 		labels = append(labels, "c09:json-to-protobuf-conversion")
+	}
+	for _, op := range c.Ops {
+		if op.Kind == "delrange" && op.Max >= op.Min && op.Max-op.Min >= 1024 {
+			labels = append(labels, "c09:one-deletion-over->1024-indexes")
+			break
+		}
 	}
 	if reopenAfterDel {
 		labels = append(labels, "c09:reopen-after-delete")
@@ -550,7 +617,11 @@ func TestVerifC09(t *testing.T) {
 	}
 	rapid.Check(t, func(rt *rapid.T) {
 		c := c09Case{Proto: rapid.Bool().Draw(rt, "protomode"), Offset: rapid.SampledFrom(c09Offsets).Draw(rt, "message_offset")}
-		c.Ops = genOps(rt, rapid.IntRange(3, 40).Draw(rt, "nops"), true, c.Proto)
+		if rapid.IntRange(0, 11).Draw(rt, "longlog") == 0 {
+			c.Ops = genLongOps(rt, c.Proto)
+		} else {
+			c.Ops = genOps(rt, rapid.IntRange(3, 40).Draw(rt, "nops"), true, c.Proto)
+		}
 		nt, labels := c09Nontrivial(c)
 		rec.Case(vh.Fingerprint(c), nt, labels, func() interface{} { return c })
 		if f := runOne(c); f != nil {
